@@ -154,6 +154,7 @@ class AssignmentRejections(Contract):
 @register
 class WorkerExclusive(Contract):
     """the pairwise busy-interval loop of initialize: one worker, 2..3 tasks"""
+    lifts = True  # element-wise meaning: holds for every list length once the loops are independent (contracts/loops.py)
 
     target = "solver.SchedulingSolver.initialize"
     inlines = ("task.Task.add_required_resource", "resource.Resource.get_busy_intervals")
@@ -214,6 +215,7 @@ class WorkerExclusive(Contract):
 
 @register
 class SelectWorkersContract(Contract):
+    lifts = True  # element-wise meaning: holds for every list length once the loops are independent (contracts/loops.py)
     target = "resource.SelectWorkers.__init__"
     inlines = ("task.Task.add_required_resource", "problem.SchedulingProblem.get_unique_negative_integer", "problem.SchedulingProblem.add_resource_select_workers")
     props = ("C02", "C05", "C06", "C18")
@@ -392,6 +394,7 @@ class CumulativeRejections(Contract):
 @register
 class WorkAmount(Contract):
     """work-amount section of initialize"""
+    lifts = True  # element-wise meaning: holds for every list length once the loops are independent (contracts/loops.py)
 
     target = "solver.SchedulingSolver.initialize"
     inlines = ("task.Task.add_required_resource",)
